@@ -83,6 +83,18 @@ fn main() {
         None => usage(),
     };
     let ctx = Ctx { prop, seed, tier, replay, threads, start: Instant::now() };
+    {
+        let limit: u64 = std::env::var("VMON_WATCHDOG_S").ok().and_then(|s| s.parse().ok()).unwrap_or(match tier {
+            Tier::Quick => 1200,
+            Tier::Thorough => 6 * 3600,
+        });
+        let p = prop;
+        std::thread::spawn(move || {
+            std::thread::sleep(std::time::Duration::from_secs(limit));
+            println!("INCONCLUSIVE property={} reason=watchdog: the run did not finish within {} s (a detector may not terminate on some input; wall clock is not a verdict)", p, limit);
+            std::process::exit(2);
+        });
+    }
     let code = mon::run(&ctx);
     std::process::exit(code);
 }
